@@ -48,7 +48,7 @@ def cases(rng, tier):
     G.setup()
     cs = []
     n = 120 if tier == "quick" else 2500
-    fams = [("layout", G.gen_layout), ("exprs", G.gen_exprs), ("range", G.gen_range), ("provisional", G.gen_provisional), ("macros", G.gen_macros), ("emacros", G.gen_emacros),
+    fams = [("layout", G.gen_layout), ("exprs", G.gen_exprs), ("range", G.gen_range), ("provisional", G.gen_provisional), ("macros", G.gen_macros), ("emacros", G.gen_emacros), ("forwarding", G.gen_forwarding),
             ("shrink", G.gen_shrink)]
     valid = family_cases(rng, fams, n // 4, faults=0.6)
     for c in valid:
